@@ -550,6 +550,10 @@ func runConcurrent(c *kit.Case) {
 	synctest.Wait()
 	time.Sleep(time.Duration(r.Range(1, 999)) * time.Millisecond)
 	now := time.Now().UnixMilli()
+	env.Rec.OnCall = func() { // widen the window between the state change and the return of Publish/Remove
+		runtime.Gosched()
+		runtime.Gosched()
+	}
 
 	var clock atomic.Int64
 	var mu sync.Mutex
